@@ -84,6 +84,40 @@ func main() {
 		rootSchema[name] = root
 		rootNames = append(rootNames, name)
 	}
+	// named components: a schema that is a component of its own becomes a named Go type (an alias
+	// of a slice / map / primitive, or a struct) with its own Encode / Decode, which an inline schema
+	// never exercises; each is driven directly and as a required / optional member through $ref
+	// (a seeded change to the encoder of aliases of nullable arrays was missed without them)
+	named := 0
+	for i, s := range schemas {
+		typ, _ := s["type"].(string)
+		if typ == "" || s["$ref"] != nil {
+			continue
+		}
+		if f, _ := s["format"].(string); f != "" && f != "byte" && f != "base64" && typ == "string" {
+			continue // named aliases of time / uuid / ip / url types: the value builder works on the library types
+		}
+		if typ != "array" && typ != "object" && i%2 == 1 {
+			continue // every second primitive leaf
+		}
+		variants := []M{s}
+		if s["nullable"] == nil && (typ == "array" || typ == "object" || i%4 == 0) {
+			variants = append(variants, grammar.Merge(s, M{"nullable": true}))
+		}
+		for vi, v := range variants {
+			cn := fmt.Sprintf("N%d%c", i, 'a'+vi)
+			roots[cn] = v
+			rootSchema[cn] = v
+			rootNames = append(rootNames, cn)
+			rn := "R" + cn
+			root := M{"type": "object", "required": []string{"v"}, "properties": M{"v": M{"$ref": "#/components/schemas/" + cn}, "o": M{"$ref": "#/components/schemas/" + cn}}}
+			roots[rn] = root
+			// the reference validator sees the member schemas inlined
+			rootSchema[rn] = M{"type": "object", "required": []string{"v"}, "properties": M{"v": v, "o": v}}
+			rootNames = append(rootNames, rn)
+			named++
+		}
+	}
 	paths := M{}
 	for _, n := range rootNames {
 		paths["/"+n] = M{"post": M{"operationId": "op" + n, "requestBody": M{"required": true, "content": M{"application/json": M{"schema": M{"$ref": "#/components/schemas/" + n}}}}, "responses": M{"200": M{"description": "ok"}}}}
@@ -161,6 +195,7 @@ func main() {
 	}
 	sum := sc.RunDriver(r, "driver.bin", nil, args...)
 	r.Set("schemas", len(schemas))
+	r.Set("named_component_types", named)
 	r.Set("root_types_generated", generated)
 	r.Set("root_types_not_generated", len(rootNames)-generated)
 	for k, v := range sum.Stats {
